@@ -197,29 +197,34 @@ Definition main_setup : sblk :=
   (SOpq 169
   (SCall (Point (-6))
   (SOpq 256
+  (SIf (COpq 283)
+    (SOpq 284
+    (SReturn 0))
+    (SDone)
+  (SOpq 290
   (SCall (Point (-7))
-  (SOpq 368
+  (SOpq 377
   (SCall (Point (-8))
-  (SOpq 471
-  (SIf (COpq 481)
-    (SOpq 490
-    (SDone))
+  (SOpq 480
+  (SIf (COpq 490)
     (SOpq 499
-    (SIf (COpq 515)
-      (SOpq 517
-      (SIf (COpq 522)
-        (SOpq 523
+    (SDone))
+    (SOpq 508
+    (SIf (COpq 524)
+      (SOpq 526
+      (SIf (COpq 531)
+        (SOpq 532
         (SReturn 0))
         (SDone)
-      (SIf (COpq 526)
-        (SOpq 527
+      (SIf (COpq 535)
+        (SOpq 536
         (SReturn 0))
         (SDone)
       (SDone))))
-      (SIf (COpq 533)
-        (SOpq 534
+      (SIf (COpq 542)
+        (SOpq 543
         (SDone))
-        (SOpq 539
+        (SOpq 548
         (SReturn 0))
       (SDone))
     (SDone)))
@@ -230,80 +235,81 @@ Definition main_setup : sblk :=
     (SDone)))
     (SDone)
   (SCall (Point (-10))
-  (SOpq 553
+  (SOpq 562
   (SCall (Point (-11))
-  (SOpq 558
+  (SOpq 567
   (SCall (Point (-12))
-  (SOpq 615
+  (SOpq 624
   (SCall (Point (-13))
-  (SOpq 674
+  (SOpq 683
   (SCall (Point (-14))
-  (SOpq 700
+  (SOpq 709
   (SCall (Point (-15))
-  (SOpq 706
-  (SIf (COpq 710)
-    (SOpq 712
-    (SIf (COpq 713)
-      (SOpq 715
+  (SOpq 715
+  (SIf (COpq 719)
+    (SOpq 721
+    (SIf (COpq 722)
+      (SOpq 724
       (SReturn 0))
       (SDone)
-    (SOpq 720
+    (SOpq 729
     (SDone))))
-    (SOpq 738
+    (SOpq 747
     (SDone))
   (SCall (Point (-16))
-  (SOpq 750
+  (SOpq 759
   (SCall (Point (-17))
-  (SOpq 758
-  (SCall (Point (-18))
   (SOpq 767
+  (SCall (Point (-18))
+  (SOpq 776
   (SCall (Point (-19))
-  (SOpq 777
+  (SOpq 786
   (SCall (Point (-20))
-  (SOpq 807
+  (SOpq 816
   (SCall (Point (-21))
   (SCall (Point (-22))
-  (SOpq 884
-  (SIf (COpq 885)
-    (SOpq 887
+  (SOpq 893
+  (SIf (COpq 894)
+    (SOpq 896
     (SCall (Point (-23))
     (STry
-      (SOpq 891
+      (SOpq 900
       (SCall (Point (-24))
-      (SOpq 894
+      (SOpq 903
       (SCall (Point (-25))
-      (SOpq 897
+      (SOpq 906
       (SCall (Point (-26))
       (SDone)))))))
-      (SOpq 906
+      (SOpq 915
       (SSetAbort
       (SDone)))
     (SDone))))
-    (SIf (COpq 919)
-      (SOpq 920
+    (SIf (COpq 928)
+      (SOpq 929
       (SDone))
-      (SOpq 922
+      (SOpq 931
       (SReturn 0))
     (SDone))
   (SCall (Point (-27))
-  (SOpq 928
-  (SDone)))))))))))))))))))))))))))))))))))))))))))))))))).
+  (SOpq 937
+  (SDone)))))))))))))))))))))))))))))))))))))))))))))))))))).
 (* opaque conditions of the set-up: (n, text) *)
 Definition setup_conds : list (Z * string) :=
   [(96, "!opts.parse(argc, argv)"%string);
    (112, "ofname.empty() && !opts.getForceRun()"%string);
-   (481, "startdistfile.empty()"%string);
-   (515, "isOfFileType('.h5', startdistfile) || isOfFileType('.hdf5', startdistfile)"%string);
-   (522, "grid_t1 == nullptr"%string);
-   (526, "nx != ps_bins"%string);
-   (533, "isOfFileType('.txt', startdistfile)"%string);
-   (710, "e1 > 0"%string);
-   (713, "derivationtype == cubic && !(zerobin >= 1 && zerobin <= ps_bins - 2)"%string);
-   (885, "isOfFileType('.h5', ofname) || isOfFileType('.hdf5', ofname)"%string);
-   (919, "ofname.empty()"%string)].
+   (283, "nbunches == 0"%string);
+   (490, "startdistfile.empty()"%string);
+   (524, "isOfFileType('.h5', startdistfile) || isOfFileType('.hdf5', startdistfile)"%string);
+   (531, "grid_t1 == nullptr"%string);
+   (535, "nx != ps_bins"%string);
+   (542, "isOfFileType('.txt', startdistfile)"%string);
+   (719, "e1 > 0"%string);
+   (722, "derivationtype == cubic && !(zerobin >= 1 && zerobin <= ps_bins - 2)"%string);
+   (894, "isOfFileType('.h5', ofname) || isOfFileType('.hdf5', ofname)"%string);
+   (928, "ofname.empty()"%string)].
 (* opaque statements of the set-up: (n, number of consecutive statements merged into it) *)
 Definition setup_opaque : list (Z * Z) :=
-  [(94, 1); (100, 1); (109, 1); (120, 1); (131, 2); (148, 1); (169, 38); (256, 39); (368, 5); (471, 1); (490, 3); (499, 1); (517, 1); (523, 1); (527, 1); (534, 1); (539, 1); (553, 2); (558, 3); (615, 3); (674, 9); (700, 1); (706, 2); (712, 1); (715, 1); (720, 9); (738, 2); (750, 2); (758, 2); (767, 1); (777, 4); (807, 2); (884, 1); (887, 2); (891, 1); (894, 2); (897, 2); (906, 1); (920, 1); (922, 1); (928, 1)].
+  [(94, 1); (100, 1); (109, 1); (120, 1); (131, 2); (148, 1); (169, 38); (256, 6); (284, 1); (290, 33); (377, 5); (480, 1); (499, 3); (508, 1); (526, 1); (532, 1); (536, 1); (543, 1); (548, 1); (562, 2); (567, 3); (624, 3); (683, 9); (709, 1); (715, 2); (721, 1); (724, 1); (729, 9); (747, 2); (759, 2); (767, 2); (776, 1); (786, 4); (816, 2); (893, 1); (896, 2); (900, 1); (903, 2); (906, 2); (915, 1); (929, 1); (931, 1); (937, 1)].
 (* VERIF_POINT labels of the translated part, index = argument of Point *)
 Definition point_names : list (Z * string) :=
   [(0, "sim:start"%string);
@@ -367,7 +373,7 @@ Definition setup_point_names : list string :=
   ["setup:handler_installed"%string; "setup:options_parsed"%string; "setup:nothing_to_do_passed"%string; "setup:display_made"%string; "setup:device_chosen"%string; "setup:machine_parameters"%string; "setup:scaling_done"%string; "setup:parameters_reported"%string; "setup:grid_made"%string; "setup:initial_renormalisation"%string; "setup:grids_copied"%string; "setup:before_rf"%string; "setup:rf_made"%string; "setup:before_drift"%string; "setup:drift_made"%string; "setup:fp_made"%string; "setup:wake_impedance"%string; "setup:rdtn_impedance"%string; "setup:rdtn_field"%string; "setup:wake_made"%string; "setup:tracking_loaded"%string; "setup:before_file"%string; "setup:config_saved"%string; "setup:file_created"%string; "setup:options_in_file"%string; "setup:file_parameters"%string; "setup:outputs_ready"%string].
 (* every reference to Display::abort in main(): (source line, is a write, lies in the translated part) *)
 Definition abort_refs : list (Z * bool * bool) :=
-  [(908, true, false); (1003, false, true); (1219, false, true)].
+  [(917, true, false); (1012, false, true); (1228, false, true)].
 (* every write of Display::abort outside main.cpp (each one is `abort = true`; anything else fails the translation) *)
 Definition abort_writes_elsewhere : list (string * Z) :=
   [("inc/IO/Display.hpp"%string, 115); ("src/IO/Display.cpp"%string, 134)].
